@@ -39,7 +39,14 @@ type Checker struct {
 	threshold float64
 
 	failedPeersMu sync.Mutex
-	failedPeers   map[peer.ID]map[string]int
+	failedPeers   map[peer.ID]map[string]failedMetric
+}
+
+// failedMetric counts the alerts sent for the latest metric of a peer,
+// identified by the time it was received.
+type failedMetric struct {
+	alerts     int
+	receivedAt int64
 }
 
 // NewChecker creates a Checker using the given
@@ -54,7 +61,7 @@ func NewChecker(ctx context.Context, metrics *Store, threshold float64) *Checker
 		alertCh:     make(chan *api.Alert, AlertChannelCap),
 		metrics:     metrics,
 		threshold:   threshold,
-		failedPeers: make(map[peer.ID]map[string]int),
+		failedPeers: make(map[peer.ID]map[string]failedMetric),
 	}
 }
 
@@ -99,7 +106,7 @@ func (mc *Checker) alert(pid peer.ID, metricName string) error {
 	defer mc.failedPeersMu.Unlock()
 
 	if _, ok := mc.failedPeers[pid]; !ok {
-		mc.failedPeers[pid] = make(map[string]int)
+		mc.failedPeers[pid] = make(map[string]failedMetric)
 	}
 	failedMetrics := mc.failedPeers[pid]
 	lastMetric := mc.metrics.PeerLatest(metricName, pid)
@@ -110,9 +117,17 @@ func (mc *Checker) alert(pid peer.ID, metricName string) error {
 		}
 	}
 
+	// Alerts are counted per latest metric: if a newer metric has
+	// arrived (and expired) since we last alerted, this is a new
+	// failure and the count starts over.
+	failed := failedMetrics[metricName]
+	if failed.receivedAt != lastMetric.ReceivedAt {
+		failed = failedMetric{receivedAt: lastMetric.ReceivedAt}
+	}
+
 	// If above threshold, remove all metrics for that peer
 	// and clean up failedPeers when no failed metrics are left.
-	if failedMetrics[metricName] >= MaxAlertThreshold {
+	if failed.alerts >= MaxAlertThreshold {
 		mc.metrics.RemovePeerMetrics(pid, metricName)
 		delete(failedMetrics, metricName)
 		if len(mc.failedPeers[pid]) == 0 {
@@ -121,7 +136,8 @@ func (mc *Checker) alert(pid peer.ID, metricName string) error {
 		return nil
 	}
 
-	failedMetrics[metricName]++
+	failed.alerts++
+	failedMetrics[metricName] = failed
 
 	alrt := &api.Alert{
 		Metric:      *lastMetric,
